@@ -401,14 +401,6 @@ theorem seg_interleaving_eq (c : Cls) (enc : Enc) (tr : List Trans) (ls ls1 : Lo
 
 /-! ### address translation: read level -/
 
-/-- the byte range `[off, off+n)` of the plain image is *represented* in the container: the
-    translation of `off` is a position of the container at which the same `n` bytes sit -/
-def RangeRep (cont : Bytes) (table : List Trans) (img : Bytes) (off n : Nat) : Prop :=
-  0 ≤ trApply table (Int.ofNat off) ∧
-  (trApply table (Int.ofNat off)).toNat + n ≤ cont.length ∧
-  off + n ≤ img.length ∧
-  slice cont (trApply table (Int.ofNat off)).toNat n = slice img off n
-
 /-- a range that lies inside one table entry whose image in the container equals the plain bytes
     is represented (this is how `Represents` is established for a concrete container) -/
 theorem rangeRep_of_entry (cont : Bytes) (table : List Trans) (img : Bytes) (e : Trans) (off n : Nat)
@@ -441,19 +433,6 @@ theorem rangeRep_of_entry (cont : Bytes) (table : List Trans) (img : Bytes) (e :
     rw [C02.slice_slice img _ _ _ _ (by omega)]
     congr 1; omega
   rw [h1, h2, heq]
-
-/-- with an empty table every range of the image represents itself -/
-theorem rangeRep_nil (img : Bytes) (off n : Nat) (h : off + n ≤ img.length) : RangeRep img [] img off n := by
-  refine ⟨by simp [trApply], by simpa [trApply] using h, h, by simp [trApply]⟩
-
-theorem secOff_toNat (table : List Trans) (offset : BitVec 64) (h63 : offset.toNat < 9223372036854775808)
-    (h0 : 0 ≤ trApply table (Int.ofNat offset.toNat))
-    (hlt : (trApply table (Int.ofNat offset.toNat)).toNat < 9223372036854775808) :
-    (secOff table offset).toNat = (trApply table (Int.ofNat offset.toNat)).toNat := by
-  unfold secOff
-  rw [toInt_of_lt offset h63, BitVec.toNat_ofInt]
-  simp only [Nat.reducePow, Int.ofNat_eq_natCast] at *
-  omega
 
 /-- **translated read = plain read** : the loader's data read on the container, at the translated
     position, delivers exactly the bytes (and the completeness flag) the plain read delivers on the
